@@ -247,14 +247,18 @@ def evaluate(case, stt):
 
     # ---- rewriting
     _rewrite_check(build(case), before, remap, fails, "built")
-    if len(stt.samples) < 2 and has_ret and dropped:
+    if len(stt.samples) < 2 and has_ret and dropped and not fails:
         stt.sample({"source_map": json.loads(sm.serialize()), "remap": case["remap"]})
     return fails
 
 
 def _rewrite_check(sm, before, remap, fails, tag):
     exp = ref_rewrite(before, remap)
-    sm.serialize()  # the object has been stored once before it is rewritten (what a caller with a saved map does)
+    # the object has been stored once before it is rewritten (what a caller with a saved map does)
+    _, exc0 = call_guard(sm.serialize)
+    if exc0 is not None:
+        fails.append(Failure("store:" + exc0[0], f"[{tag}] serialize() raised {exc0[1]}"[:600]))
+        return
     def _rw():
         from vf.cut import cut_stack
 
